@@ -2014,6 +2014,66 @@ theorem handler_spec {env : Env} {conn : Conn} (hl : LowerIdem env) {st : Ctl} {
               rw [r2, hlis]
               exact ⟨_, _, r6, hclX, hobs', hfre⟩
 
+/-- when nothing is served under the cluster's name (never created, or deleted), a delivery that is not requeued
+    installs exactly the `ClusterInfo` that `CreateClusterInfo` builds from the lister's current object -/
+theorem create_is_fresh {env : Env} {conn : Conn} (hl : LowerIdem env) {st st' : Ctl} {X : Str} {o : Obj} (ord : List Str)
+    (hI : CInv env conn st) (hX : env.lower X = X) (hlis : alookup X st.lister = some o)
+    (hg : st.get env X = none) (h : syncUpstreamCluster env conn st X ord = .done st') :
+    ∃ f, fresh env conn o ord = .ok f ∧ st'.get env X = some (st.heap.length, f) := by
+  unfold syncUpstreamCluster at h
+  simp only at h
+  rw [hX, hlis] at h
+  dsimp only at h
+  have hname : o.name = X := hI.listerOK X o hlis
+  by_cases hcf : checkUpstreamServerNameConflict env st o = true
+  · rw [if_pos hcf] at h; cases h
+  · rw [if_neg hcf, hg] at h
+    dsimp only at h
+    have hg' : resolves st X = none := by rw [get_eq, hX] at hg; exact hg
+    cases hf : fresh env conn o ord with
+    | crash => rw [hf] at h; cases h
+    | fail e c => rw [hf] at h; cases h
+    | ok info =>
+      rw [hf] at h
+      dsimp only at h
+      have hfr : sync env (empty env conn o.name) o ord = .ok info := hf
+      obtain ⟨hinv, hcl, hconn, _, _, _, _⟩ := sync_ok_spec (empty_inv env conn o.name) hfr rfl
+      have hcl' : info.cluster = X := by rw [hcl]; show env.lower o.name = X; rw [hname, hX]
+      cases ha : addOrUpdateForServerNames env { st with heap := st.heap ++ [info] } [] st.heap.length info with
+      | none => rw [ha] at h; cases h
+      | some st2 =>
+        rw [ha] at h
+        dsimp only at h
+        injection h with h; subst h
+        have hnone : ∀ ci, st.heap[st.heap.length]? = some ci → False := by
+          intro ci h; rw [List.getElem?_eq_none (Nat.le_refl _)] at h; cases h
+        have hnoX : ∀ k id' c, resolves st k = some (id', c) → c.cluster = X → False := by
+          intro k id' c hr hc
+          rw [resolves_some] at hr
+          have := hI.namesKeys k id' c hr.1 hr.2 c.cluster (cluster_mem_names env c)
+          rw [hc] at this
+          have hr' : resolves st X = some (id', c) := resolves_some.2 ⟨this, hr.2⟩
+          rw [hg'] at hr'; cases hr'
+        obtain ⟨_, _, _, _, _, r6⟩ := rekey_spec (conn := conn) hl (st0 := st)
+          (st1 := { st with heap := st.heap ++ [info] }) (id := st.heap.length) (info' := info) (X := X) (old := [])
+          hI rfl rfl rfl
+          (by show (st.heap ++ [info])[st.heap.length]? = some info; rw [heap_append_get, if_pos rfl])
+          (by intro id' hne; show (st.heap ++ [info])[id']? = st.heap[id']?; rw [heap_append_get, if_neg hne])
+          hX hcl' hinv hconn
+          (by
+            intro k
+            constructor
+            · intro hk
+              obtain ⟨ci, hci, _⟩ := hI.keysSub k _ hk
+              exact (hnone ci hci).elim
+            · intro hk; cases hk)
+          (fun ci h => (hnone ci h).elim)
+          (fun k id' c hr hc => (hnoX k id' c hr hc).elim)
+          (by unfold loadServerNames; intro hc; cases hc)
+          ha
+        refine ⟨info, rfl, ?_⟩
+        rw [get_eq, hX]; exact r6
+
 /-! ## the controller: every sequence of writes, deletes and deliveries -/
 
 /-- object names are DNS subdomains (`ValidateObjectMeta`): lower case -/
@@ -2223,5 +2283,22 @@ theorem names_of_settled {env : Env} {conn : Conn} {st : Ctl} {n : Str} {o : Obj
     rw [← hnames] at hx
     have := hI.namesKeys n id ci hr'.1 hr'.2 _ hx
     exact ⟨id, ci, resolves_some.2 ⟨this, hr'.2⟩, hc⟩
+
+theorem mem_allEndpoints (c : CI) (ep : Str) : ep ∈ allEndpoints c ↔ (loadEndpoint c ep).isSome = true := by
+  unfold allEndpoints loadEndpoint akeys
+  induction c.eps with
+  | nil => simp [alookup]
+  | cons kv r ih =>
+    obtain ⟨k, v⟩ := kv
+    simp only [List.map_cons, List.mem_cons, alookup]
+    by_cases h : k = ep
+    · simp [h]
+    · simp only [h, if_false, ← ih]
+      constructor
+      · intro x
+        cases x with
+        | inl e => exact absurd e.symm h
+        | inr m => exact m
+      · intro m; exact Or.inr m
 
 end KG.Lemmas.ClusterSync
